@@ -12,6 +12,8 @@ type Lexer struct {
 	line    int
 	column  int
 	atStart bool
+	// prevType is the type of the token returned last.
+	prevType TokenType
 }
 
 func NewLexer(input string) *Lexer {
@@ -25,6 +27,12 @@ func NewLexer(input string) *Lexer {
 }
 
 func (l *Lexer) Next() Token {
+	tok := l.next()
+	l.prevType = tok.Type
+	return tok
+}
+
+func (l *Lexer) next() Token {
 	if l.pos >= len(l.input) {
 		return l.makeToken(TokenEOF, "")
 	}
@@ -588,8 +596,11 @@ func (l *Lexer) nextIsLetterCommodity() bool {
 	return false
 }
 
+// followsAmountNumber reports whether the text at pos comes right after the
+// number of an amount ("5 USD"). A digit alone does not tell: an account name
+// may end with one ("assets:card1  USD5").
 func (l *Lexer) followsAmountNumber(pos int) bool {
-	if pos == 0 {
+	if pos == 0 || l.prevType != TokenNumber {
 		return false
 	}
 	p := pos - 1
@@ -599,7 +610,7 @@ func (l *Lexer) followsAmountNumber(pos int) bool {
 	if p < 0 {
 		return false
 	}
-	return l.isDigit(l.input[p])
+	return l.isDigit(l.input[p]) || l.input[p] == '.' || l.input[p] == ','
 }
 
 func (l *Lexer) isAllUppercase(s string) bool {
